@@ -7,7 +7,7 @@
 # Programs: every core derivation under every layout, and single-token mutations (deletion, swap,
 # insertion from INSERT) of the core token sequences -- all of them for the small programs, a seeded
 # sample of the rest.  syntax.Parser (LangBash / LangPOSIX) is run on each; the shells judge each:
-#   * many programs per shell process: `command eval 'f() {<nl>PROGRAM<nl>}'` parses without running
+#   * many programs per shell process: `command eval 'f() {<nl>:<nl>PROGRAM<nl>}'` parses without running
 #     and survives syntax errors (status 2) in bash and dash;
 #   * a real `bash -n` / `dash -n` process for (1) programs where the wrapper could change acceptance
 #     (a here-document operator in a mutated program, a trailing backslash, a `}` that closes the wrapper
@@ -24,7 +24,7 @@ LANGS = ["bash", "posix"]
 SHELL = {"bash": "bash", "posix": "dash"}
 INSERT = ["(", ")", "{", "}", ";", "&", "|", "&&", "!", "'", "\"", "`", "$(", "fi", "do", "done", "esac", "then", "if",
           "in", ";;", "\n", "foo", ">", "#"]
-# tokens that mostly witness the documented differences: inserted at every 5th position only
+# tokens that mostly witness the documented differences: inserted at every 7th position only
 WITNESS = ["<<", "&>", "BAD", "$(())", "$((", "${x"]
 
 
@@ -36,6 +36,11 @@ def single_mutations(r):
     def ok(m):   # a here-document marker keeps its two operands
         return all(not (t == "<HDOC>" and k + 2 >= len(m)) for k, t in enumerate(m))
     out = []
+    for i, t in enumerate(toks):
+        if t in ("<SEP>", "<BGSEP>"):            # a statement separator goes missing
+            m = toks[:i] + ["<SP>"] + toks[i + 1:]
+            if ok(m) and "<HDOC>" not in toks[:i]:
+                out.append(("del:" + t, i + 1, m))
     for i in idx:
         m = toks[:i] + toks[i + 1:]
         if m and ok(m):
@@ -44,7 +49,7 @@ def single_mutations(r):
             m = list(toks); m[i], m[i + 1] = m[i + 1], m[i]
             if ok(m) and m != toks:
                 out.append(("swap:" + toks[i], i + 2, m))
-        for t in INSERT + (WITNESS if i % 5 == 0 else []):
+        for t in INSERT + (WITNESS if i % 7 == 0 else []):
             m = toks[:i] + [t] + toks[i:]
             if ok(m):
                 out.append(("ins:" + t, i + 1, m))
@@ -90,7 +95,7 @@ def run_wrapped(shell, progs, per_process=2500):
                 sp = os.path.join(work, "w.sh")
                 with open(sp, "wb") as f:
                     for i in idx:
-                        f.write(("command eval %s 2>/dev/null </dev/null; echo \"@@%d:$?\"\n" % (shquote("f() {\n" + progs[i] + "\n}\n"), i)).encode("latin-1", "replace"))
+                        f.write(("command eval %s 2>/dev/null </dev/null; echo \"@@%d:$?\"\n" % (shquote("f() {\n:\n" + progs[i] + "\n}\n"), i)).encode("latin-1", "replace"))
                 p = subprocess.run([shell, sp], cwd=work, env=env, stdin=subprocess.DEVNULL, capture_output=True, timeout=600)
                 got = {}
                 for m in re.finditer(rb"@@(\d+):(\d+)", p.stdout):
@@ -213,24 +218,25 @@ def run(ck):
     srcs = [p["src"] for p in progs]
     risky = [wrapper_risky(p["src"], p["mut"] > 0) for p in progs]
     wrapped = {lang: run_wrapped(SHELL[lang], srcs) for lang in LANGS}
-    # real `-n` processes for BOTH shells on the same programs, in this order of priority, up to a cap
-    # (process creation is the bottleneck): every disagreement seen through the wrapper, the validation
-    # sample, then the programs that are risky for the wrapper (unmutated ones first)
-    cap = 900 if ck.tier == "quick" else 2500
+    # real `-n` processes for BOTH shells on the same programs, up to a cap (process creation is the
+    # bottleneck): the validation sample, then the programs that are risky for the wrapper (unmutated
+    # ones first).  Disagreements seen only through the wrapper are confirmed by real runs further down,
+    # after TLC has said which of them are not excused.
+    cap = 420 if ck.tier == "quick" else 2500
     unanswered = set(i for i in range(len(progs)) if any(wrapped[l][i] is None for l in LANGS))
-    dis = [i for i, p in enumerate(progs) if not risky[i] and i not in unanswered
-           and any(wrapped[l][i] != p["impl"][l]["ok"] for l in LANGS)]
-    cand = [i for i in range(len(progs)) if not risky[i] and i not in unanswered and i not in set(dis)]
+    cand = [i for i in range(len(progs)) if not risky[i] and i not in unanswered]
     ck.rng.shuffle(cand)
     sample = cand[:60 if ck.tier == "quick" else 600]
     rk = [i for i in range(len(progs)) if risky[i] or i in unanswered]
     ck.rng.shuffle(rk)
     rk.sort(key=lambda i: progs[i]["mut"] > 0)
-    room = max(0, cap - len(dis) - len(sample))
+    room = max(0, cap - len(sample))
     dropped = set(rk[room:])
+    dis = []
     order = sorted(set(dis) | set(sample) | set(rk[:room]))
     for i in dropped:
         progs[i]["unjudged"] = set(LANGS)
+    real_done = set(order)
     for lang in LANGS:
         sh = SHELL[lang]
         real = dict(zip(order, run_real(sh, [srcs[i] for i in order])))
@@ -277,6 +283,24 @@ def run(ck):
         raise vlib.Inconclusive("ShRecognizer: a law of the difference contract fails on the observations:\n" + (t.violation or t.raw_tail))
     exc = {d["id"]: d["names"] for d in t.vecs.get("EXC", [])}
     unx = set(d["id"] for d in t.vecs.get("UNX", []))
+    # ---- every disagreement that would be reported is first confirmed by real `-n` runs
+    report_ids = set(unx) | set(i for i, ns in exc.items() if any(n.startswith("Dev_") for n in ns))
+    confirm = sorted(set(where[i][0] for i in report_ids if where[i][0] not in real_done))
+    refuted = 0
+    if confirm:
+        for lang in LANGS:
+            for k, r in zip(confirm, run_real(SHELL[lang], [srcs[k] for k in confirm])):
+                if r["ok"] != progs[k]["shell"][lang]["ok"]:
+                    refuted += 1
+                progs[k]["shell"][lang] = r
+    ck.notes["disagreements_confirmed_by_real_runs"] = {"programs": len(confirm), "wrapper_verdicts_refuted": refuted}
+    if refuted > 10:
+        ex = [srcs[k] for k in confirm if any(not progs[k]["impl"][l]["ok"] == progs[k]["shell"][l]["ok"] for l in LANGS) is False][:4]
+        raise vlib.Inconclusive("the function wrapper gave %d verdicts that real -n runs refute, e.g. %s" % (refuted, json.dumps(ex)))
+    for o in obs:      # the real run wins over the wrapper
+        k, lang = where[o["id"]]
+        o["shell"] = "ok" if progs[k]["shell"][lang]["ok"] else "rejected"
+    lap("confirm")
     # ---- verdicts
     excused = collections.Counter()
     seen = {}
